@@ -19,7 +19,7 @@ git checkout -q -- . ; rm -f $(git ls-files --others --exclude-standard | grep z
 git apply $dst/patch.diff || { echo "patch does not apply" | tee -a $log; exit 2; }
 echo "== suite with change" >> $log
 go build ./... >> $log 2>&1 && go test -count=1 ./... >> $log 2>&1; suite=$?
-if [ $suite -ne 0 ]; then go test -count=1 ./... >> $log 2>&1; suite=$?; fi
+for try in 1 2; do if [ $suite -ne 0 ]; then go test -count=1 ./... >> $log 2>&1; suite=$?; fi; done
 cp $dst/demo_test.go.txt $wt/$pkg/zz_seed_demo_test.go
 echo "== demo with change" >> $log
 go test -count=1 -run 'SeedDemo' ./$pkg >> $log 2>&1; demo_with=$?
